@@ -186,29 +186,32 @@ Definition code_point_escape (s : list byte) : esc_res :=
   | [] => EscErr
   end.
 
-(* the main loop, one rune per iteration; None = an error is returned *)
-Fixpoint dec_esc (fuel : nat) (s : list byte) (acc : list byte) : pres str :=
+(* the main loop, one rune per iteration (the decoded text is built front to back: linear time) *)
+Definition pcons (out : list byte) (r : pres str) : pres str :=
+  match r with POK t => POK (out ++ t) | e => e end.
+
+Fixpoint dec_esc (fuel : nat) (s : list byte) : pres str :=
   match fuel with
   | O => PFuel
   | S f =>
     match s with
-    | [] => POK acc
+    | [] => POK []
     | _ =>
       let '(c, sz) := dec_rune s in
       let s1 := skipn sz s in
-      if c =? 0 then POK acc
+      if c =? 0 then POK []
       else if c =? 37 then
         let r := match s1 with
                  | u :: s2 => if is_c 117 u then code_point_escape s2 else utf8_escape s1
                  | [] => utf8_escape s1
                  end in
         match r with
-        | EscOK out s' => dec_esc f s' (acc ++ out)
-        | EscNull => POK acc
+        | EscOK out s' => pcons out (dec_esc f s')
+        | EscNull => POK []
         | EscErr => PErrNoTok
         end
-      else dec_esc f s1 (acc ++ enc_rune c)
+      else pcons (enc_rune c) (dec_esc f s1)
     end
   end.
 
-Definition decode_escapes (s : str) : pres str := dec_esc (S (length s)) s [].
+Definition decode_escapes (s : str) : pres str := dec_esc (S (length s)) s.
